@@ -311,11 +311,11 @@ class Evaluator:
                 return st.heap.alloc_list(None, z3.IntVal(0), [])
             res, rl = st.heap.fresh_list(cell.etype, 'rev')
             rc = st.heap.lists[res.ref]
-            st.assume(rl == n)
+            st.assume(_lab(rl == n, 'theory:slice'))
             k = z3.Int(fresh_name('k'))
-            st.assume(z3.ForAll([k], z3.Implies(z3.And(k >= 0, k < n), z3.And([r[k] == x[n - 1 - k] for r, x in zip(rc.leaves, cell.leaves)]))))
+            st.assume(_lab(z3.ForAll([k], z3.Implies(z3.And(k >= 0, k < n), z3.And([r[k] == x[n - 1 - k] for r, x in zip(rc.leaves, cell.leaves)]))), 'theory:slice'))
             k2 = z3.Int(fresh_name('k'))
-            st.assume(z3.ForAll([k2], z3.Implies(z3.And(k2 >= 0, k2 < n), z3.And([r[n - 1 - k2] == x[k2] for r, x in zip(rc.leaves, cell.leaves)]))))
+            st.assume(_lab(z3.ForAll([k2], z3.Implies(z3.And(k2 >= 0, k2 < n), z3.And([r[n - 1 - k2] == x[k2] for r, x in zip(rc.leaves, cell.leaves)]))), 'theory:slice'))
             return VList(res.ref, nd=lv.nd, width=lv.width)
         if not (isinstance(sl.step, VNone) or const_int(as_int(sl.step)) == 1):
             raise Unsupported('list slice with step != 1')
@@ -666,6 +666,10 @@ class Evaluator:
         base = self.ev(node.value, st)
         if type(base).__name__ == 'VMat' and isinstance(node.slice, ast.Tuple):
             return self.mat_subscript_ast(base, node.slice, st, node)
+        if isinstance(base, VObj) and isinstance(node.slice, ast.Tuple) and len(node.slice.elts) == 2 \
+                and isinstance(node.slice.elts[1], ast.Constant) and node.slice.elts[1].value is Ellipsis:
+            # obj[i, ...]: the trailing Ellipsis selects everything in the remaining dimensions = obj[i]
+            return self.subscript(base, self.ev(node.slice.elts[0], st), st, node)
         if isinstance(base, VList) and isinstance(node.slice, ast.Tuple) and len(node.slice.elts) == 2 and isinstance(node.slice.elts[0], ast.Slice) \
                 and isinstance(node.slice.elts[1], ast.Constant) and node.slice.elts[1].value is Ellipsis:
             # x[a:b, ...]: the trailing Ellipsis selects everything in the remaining dimensions = x[a:b]
